@@ -15,7 +15,9 @@ def make_program(depth):
     """random program tree over x, y (ints 0..D-1), k (any int) and s (sequence of 3 letters)"""
     conds = [lambda x, y, k, s: (x + y) % 3 == 1, lambda x, y, k, s: x < y, lambda x, y, k, s: k % 4 == x % 4,
              lambda x, y, k, s: s[x % 3] == s[y % 3], lambda x, y, k, s: (k // 3) % 2 == 0, lambda x, y, k, s: x * 2 > y + 1,
-             lambda x, y, k, s: s[:2] == s[1:], lambda x, y, k, s: -k % 5 >= 2, lambda x, y, k, s: s[(k % 3):] + s[:(k % 3)] == s]
+             lambda x, y, k, s: s[:2] == s[1:], lambda x, y, k, s: -k % 5 >= 2, lambda x, y, k, s: s[(k % 3):] + s[:(k % 3)] == s,
+             lambda x, y, k, s: (1, 3, 0, 2, 4)[x] > y,  # __index__: realisation by forking over the feasible values
+             lambda x, y, k, s: len("ab" * (y % 3)) == x % 4]
     def build(d):
         if d == 0:
             a, b, c = rng.randint(-3, 3), rng.randint(-3, 3), rng.randint(-3, 3)
@@ -34,7 +36,7 @@ def run(prog, x, y, k, s):
 def main():
     bad = 0
     total_paths = 0
-    for trial in range(40):
+    for trial in range(int(sys.argv[2]) if len(sys.argv) > 2 else 40):
         prog = make_program(rng.randint(2, 4))
         paths = []
 
@@ -66,7 +68,7 @@ def main():
                         bad += 1
                         if bad < 5:
                             print("MISMATCH trial", trial, (x, y, k, s), "paths hit:", hits)
-    print("programs=40 paths=%d mismatches=%d" % (total_paths, bad))
+    print("paths=%d mismatches=%d" % (total_paths, bad))
     return 1 if bad else 0
 
 
